@@ -841,6 +841,10 @@ fn main() {
             if args.engine_enabled("utl") {
                 utl_random(&args, &mut rep, prop, sc(20_000.0, 400_000.0));
             }
+            // the zero-wait clause ("... or Closed") against a close() on another thread
+            if args.engine_enabled("th_sweep") {
+                th_sweep_managed(&args, &mut rep, prop);
+            }
             if args.engine_enabled("rt_real") {
                 rt_real(&args, &mut rep, sc(16.0, 400.0).max(1));
             }
